@@ -2,7 +2,8 @@
 """Regenerates MANIFEST.json from checks.json (claimed checks) and properties.jsonl (everything else -> not_applicable)."""
 import json, os
 V=os.path.dirname(os.path.abspath(__file__))
-checks=json.load(open(os.path.join(V,'checks.json')))
+import glob
+checks={os.path.basename(f)[:-5]:json.load(open(f)) for f in sorted(glob.glob(os.path.join(V,'checks','C*.json')))}
 ids=[json.loads(l)['id'] for l in open(os.path.join(V,'properties.jsonl'))]
 na_reasons=json.load(open(os.path.join(V,'not_applicable.json'))) if os.path.exists(os.path.join(V,'not_applicable.json')) else {}
 m={"version":1,
